@@ -49,7 +49,7 @@ def perturbed(ctx, t, bi, n):
         out.append(("slot %s of type %s -> %s" % (tg.info_dict(info)["where"], ty, other), tg.render(t, plant_e=(i, other))))
     # the neighbourhood of the known holes: generic helpers instantiated at types their bodies cannot handle
     ss = [(i, info) for i, info in tg.slots(t, "S") if tg.info_dict(info)["where"] != "global" and tg.info_dict(info).get("pure") != "1"]
-    for stmt in ("zgcmp(true, false)", 'zglocal("a")', 'zgtup("a", true)', 'zgadd(1, "a")'):
+    for stmt in ("zgcmp(true, false)", 'zglocal("a")', 'zgtup("a", true)', 'zgadd(1, "a")', 'print(zgdiv("a"))', 'print(zgdiv2(2, "a"))'):
         if ss:
             i, info = r.choice(ss)
             out.append(("generic helper instantiated badly: " + stmt, tg.render(t, plant_s=(i, [stmt]))))
@@ -61,6 +61,13 @@ def perturbed(ctx, t, bi, n):
         if ss:
             i, info = r.choice(ss)
             out.append(("definition through a wrapper call: " + lines[0], tg.render(t, plant_s=(i, lines))))
+    # a field the blob does not have, read through `self` in a method and used
+    for lines in (['zs5 :: Zs { n: 1, get: fn -> int do self.nope_field end }', 'print(zs5.get() + 1)'],
+                  ['zs5 :: Zs { n: 1, get: fn -> int do', '    zg :: fn -> int do self.nope_field end', '    zg()', 'end }', 'print(zs5.get() + 1)'],
+                  ['zs5 :: Zs { n: 1, get: fn -> str do self.n end }', 'print(zs5.get() + "s")']):
+        if ss:
+            i, info = r.choice(ss)
+            out.append(("self used at a type the instance does not have: " + lines[0][:60], tg.render(t, plant_s=(i, lines))))
     # the value of an if / case expression one of whose branches ends without a value, used
     for lines in (['zv1 := 0', 'zv2 := if false do', '    1', 'else do', '    zv1 = 2', 'end', 'print(zv2 + 1)'],
                   ['zv3 := case ZEV do', '    P x -> zq :: x end', '    Q -> 1 end', 'end', 'print(zv3 + 1)'],
